@@ -5,7 +5,7 @@ import AlgoVerif.Generated.C01
 /-!
 # C01 — ordered symbol tables behave as a sorted map on every operation history
 
-`run kind cmp eqVal ops` executes the history `ops` on two fresh tables of the Model
+`run kind cmp eqVal ops` executes the history `ops` on three fresh tables of the Model
 (`Model/C01.lean`, the transcription of `symboltable/{bst,avl,red_black}.go`); `Spec.accepts` says that
 the abstract sorted map (`Spec/C01.lean`) admits the sequence of results.  The theorems say: for
 every lawful comparator, every value equality, every finite history of API calls (every predicate,
@@ -16,21 +16,21 @@ open AlgoVerif AlgoVerif.C01
 
 theorem C01_bst {K V : Type} (cmp : K → K → Int) (h : LawfulCmp cmp) (eqVal : V → V → Bool)
     (ops : List (Op K V)) :
-    ∃ s outs, run .bst cmp eqVal ops = .ok (s, outs) ∧ Spec.accepts cmp eqVal ([], []) ops outs := by
-  obtain ⟨s, outs, e, -, acc⟩ := runFrom_ok (bst_kindOK h) h eqVal ops (.nil, .nil) ⟨inv_nil, inv_nil⟩
+    ∃ s outs, run .bst cmp eqVal ops = .ok (s, outs) ∧ Spec.accepts cmp eqVal ([], [], []) ops outs := by
+  obtain ⟨s, outs, e, -, acc⟩ := runFrom_ok (bst_kindOK h) h eqVal ops (.nil, .nil, .nil) ⟨inv_nil, inv_nil, inv_nil⟩
   exact ⟨s, outs, e, acc⟩
 
 theorem C01_avl {K V : Type} (cmp : K → K → Int) (h : LawfulCmp cmp) (eqVal : V → V → Bool)
     (ops : List (Op K V)) :
-    ∃ s outs, run .avl cmp eqVal ops = .ok (s, outs) ∧ Spec.accepts cmp eqVal ([], []) ops outs := by
-  obtain ⟨s, outs, e, -, acc⟩ := runFrom_ok (avl_kindOK h) h eqVal ops (.nil, .nil) ⟨inv_nil, inv_nil⟩
+    ∃ s outs, run .avl cmp eqVal ops = .ok (s, outs) ∧ Spec.accepts cmp eqVal ([], [], []) ops outs := by
+  obtain ⟨s, outs, e, -, acc⟩ := runFrom_ok (avl_kindOK h) h eqVal ops (.nil, .nil, .nil) ⟨inv_nil, inv_nil, inv_nil⟩
   exact ⟨s, outs, e, acc⟩
 
 theorem C01_rb {K V : Type} (cmp : K → K → Int) (h : LawfulCmp cmp) (eqVal : V → V → Bool)
     (ops : List (Op K V)) :
-    ∃ s outs, run .rb cmp eqVal ops = .ok (s, outs) ∧ Spec.accepts cmp eqVal ([], []) ops outs := by
-  obtain ⟨s, outs, e, -, acc⟩ := runFrom_ok (rb_kindOK h) h eqVal ops (.nil, .nil)
-    ⟨⟨inv_nil, llrb_nil⟩, ⟨inv_nil, llrb_nil⟩⟩
+    ∃ s outs, run .rb cmp eqVal ops = .ok (s, outs) ∧ Spec.accepts cmp eqVal ([], [], []) ops outs := by
+  obtain ⟨s, outs, e, -, acc⟩ := runFrom_ok (rb_kindOK h) h eqVal ops (.nil, .nil, .nil)
+    ⟨⟨inv_nil, llrb_nil⟩, ⟨inv_nil, llrb_nil⟩, ⟨inv_nil, llrb_nil⟩⟩
   exact ⟨s, outs, e, acc⟩
 
 /-- `Traverse` stated exactly (not only up to the enumeration the sorted map admits): in each of the eight
@@ -75,7 +75,7 @@ example : okAnd (run .rb cmpDiff7 eqInt
 example : okAnd (run .avl cmpAsc eqInt
       [.put 1 1, .put 3 3, .put 2 2, .put 7 7, .put 6 6, .put 5 5, .put 4 4, .size, .delete 4, .deleteMin,
         .deleteMax, .floor 4, .selectMatch (fun k _ => k % 2 == 0), .swap, .all])
-    (fun r => r.1.1.sz == 2 && r.1.2.sz == 4) = true := by decide
+    (fun r => r.1.1.sz == 2 && r.1.2.1.sz == 4) = true := by decide
 
 example : okAnd (run .rb cmpDesc eqInt
       [.put 1 1, .put 3 3, .put 2 2, .put 7 7, .put 6 6, .put 5 5, .put 4 4, .delete 2, .delete 6, .deleteMin,
